@@ -1,10 +1,47 @@
 (** C20 — Result models enforce array shapes and retention protocols idempotently.
-    Property theorems only; proofs are in Proofs/Results.v and Proofs/Basis.v.
+    Property theorems only; proofs are in Proofs/Results*.v and Proofs/Basis.v.
     Models: Model/Results.v, Model/Basis.v interpreting the tables of Gen/KeepLists.v (regenerated from
-    qcelemental/models/results.py, procedures.py, basis.py on every run). *)
+    qcelemental/models/results.py, procedures.py, basis.py on every run).
+
+    CLAUSE MAP (statement of C20 in properties.jsonl, clause by clause -> theorems below)
+    1. "reshapes every array to the implied shape or rejects it if the size does not fit"
+       - numpy reshape itself (all dims known / one unknown), flat = shaped, data unchanged:
+           C20_shapes_accepted_iff_size_fits, C20_shapes_flat_shaped_idempotent                         [full]
+       - gradient nat x 3, Hessian 3nat x 3nat, dipoles 3, quadrupole 3x3 (AtomicResultProperties):
+           C20_property_arrays (per field), C20_properties_whole_object (the whole object = field-wise)  [full]
+       - AO matrices nbf x nbf, orbitals nbf x *, vectors flat (WavefunctionProperties, every field of the
+         generated table, with the basis the object itself carries): C20_wfn_arrays_shaped_or_rejected  [full]
+           the rule attached to each field is compatible with its declared shape: C20_declared_shapes_enforced
+           (finite, generated table); the two fields without a rule: C20_declared_shapes_enforced_refuted [finding]
+       - return value per driver: C20_return_result_by_driver                                              [full]
+       - at the public constructor AtomicResult(...): C20_atomic_result_is_its_stages (accepted iff the protocols
+         are valid and the four governed fields pass their stage; error classes)                          [full]
+    2. "keeps a basis set's function count equal to the count implied by its shells"
+           C20_nbf_spec, C20_nbf_count_formulas, C20_basis_accepted_iff (accepted iff structurally valid, stored
+           nbf = count, supplied nbf absent or equal; refusals are Validation or the escaping KeyError)    [full,
+           for center_data with distinct keys = every Python dict]
+    3. "retains exactly what the protocols allow"
+       - wavefunction, at the filter: C20_wfn_kept_exactly, C20_wfn_dropped_only_by_none, C20_wfn_fails_closed [full]
+       - wavefunction, at the public constructor (filter ; field validation, supplied or default protocol):
+           C20_atomic_wfn_kept_exactly (keys exactly the documented set, payloads the supplied ones, no *_b
+           when restricted, nothing appears from nowhere)                                                  [full]
+       - stdout, native files: C20_stdout_native_protocols; at the constructor: C20_atomic_other_fields      [full]
+       - trajectory: C20_trajectory_spec (default policy: C20_keep_lists_are_documented fixes the defaults)  [full]
+       - the lists themselves = the documented ones: C20_keep_lists_are_documented (finite, generated)
+    4. "everything not excluded is kept unchanged"
+           C20_wfn_kept_exactly (3rd conjunct), C20_wfn_validation_keeps_payload (validation changes shapes only),
+           C20_atomic_wfn_kept_exactly (2nd conjunct), C20_shapes_flat_shaped_idempotent (data)              [full]
+    5. "validating the resulting object again changes nothing"
+           C20_wfn_protocol_idempotent, C20_wfn_validation_idempotent, C20_wfn_stage_idempotent,
+           C20_stdout_native_protocols, C20_trajectory_idempotent_total, C20_properties_whole_object (2nd),
+           C20_basis_revalidation, C20_atomic_revalidation (whole AtomicResult, with the hypothesis that
+           C20_revalidation_identity_refuted shows necessary)                                   [full / finding]
+    Only correspondence / oracle (not a theorem): acceptance side of WavefunctionProperties ("all arrays fit and
+    all pointers have targets => accepted" as an iff), memory layouts, pydantic plumbing, OptimizationResult
+    fields other than `trajectory`. *)
 From Coq Require Import ZArith List String Bool.
 Require Import QV.Common.Outcome QV.Gen.KeepLists QV.Model.Results QV.Model.Basis QV.Proofs.Results QV.Proofs.Basis
-  QV.Proofs.ResultsValidate QV.Proofs.ResultsCompose.
+  QV.Proofs.ResultsValidate QV.Proofs.ResultsCompose QV.Proofs.ResultsPublic.
 Import ListNotations.
 Local Open Scope string_scope.
 Local Open Scope list_scope.
@@ -195,6 +232,105 @@ Theorem C20_atomic_revalidation : forall i o,
   atomic_result (refeed i o) = Ok o.
 Proof. exact atomic_revalidation. Qed.
 
+(** WavefunctionProperties, every array field that has a reshape rule in the generated table (AO matrices
+    nbf x nbf, orbitals nbf x *, vectors flat), with the basis the dictionary itself carries:
+    accepted => the stored array has the supplied elements in the shape numpy's reshape gives for the rule
+    instantiated with THAT nbf; a size that fits no such shape => the whole object is refused with a
+    validation error; and, spelled out for the nbf x nbf rule: shape = [nbf; nbf] and size = nbf * nbf. *)
+Theorem C20_wfn_arrays_shaped_or_rejected :
+  (forall w w', wfn_validate w = Ok w' ->
+     exists nbf, dget "basis" w' = Some (WBasis nbf) /\
+     forall name t d a, In (name, FArr (Some t) d) wfn_fields -> dget name w = Some (WArr a) ->
+       exists a', dget name w' = Some (WArr a') /\ dat a' = dat a
+                  /\ reshape_dims (zlen (dat a)) (inst (if uses_nbf t then nbf else 0) 0 t) = Ok (shp a'))
+  /\ (forall w name t d a nbf,
+     In (name, FArr (Some t) d) wfn_fields -> dget name w = Some (WArr a) -> dget "basis" w = Some (WBasis nbf) ->
+     (forall s, reshape_dims (zlen (dat a)) (inst (if uses_nbf t then nbf else 0) 0 t) <> Ok s) ->
+     wfn_validate w = Err Validation)
+  /\ (forall w w' name d a, wfn_validate w = Ok w' ->
+     In (name, FArr (Some [DNbf; DNbf]) d) wfn_fields -> dget name w = Some (WArr a) ->
+     exists nbf a', dget "basis" w' = Some (WBasis nbf) /\ dget name w' = Some (WArr a') /\ dat a' = dat a
+                    /\ shp a' = [nbf; nbf] /\ nbf * nbf = zlen (dat a))
+  /\ (forall w k, wfn_validate w = Err k -> k = Validation).
+Proof.
+  split; [exact wfn_validate_shapes|]. split; [exact wfn_validate_rejects_misfit|].
+  split; [intros w w' name d a; apply wfn_matrix_shape|exact wfn_validate_err].
+Qed.
+(** the nbf x nbf rule is attached to twelve fields of the generated table, the nbf x * rule to four, the flat rule to four *)
+Example C20_ex_rules :
+  List.length (filter (fun f => match snd f with FArr (Some [DNbf; DNbf]) _ => true | _ => false end) wfn_fields) = 12%nat
+  /\ List.length (filter (fun f => match snd f with FArr (Some [DNbf; DAny]) _ => true | _ => false end) wfn_fields) = 4%nat
+  /\ List.length (filter (fun f => match snd f with FArr (Some [DAny]) _ => true | _ => false end) wfn_fields) = 4%nat.
+Proof. vm_compute. auto. Qed.
+
+(** Validation changes nothing but array shapes: the validated dictionary has exactly the supplied keys, every
+    non-array value is the supplied one, every array holds the supplied elements. *)
+Theorem C20_wfn_validation_keeps_payload : forall w w', wfn_validate w = Ok w' ->
+  forall k, match dget k w, dget k w' with
+            | None, None => True
+            | Some v, Some v' => same_payload v v'
+            | _, _ => False
+            end.
+Proof. exact wfn_validate_payload. Qed.
+
+(** The public constructor AtomicResult(...), protocols supplied or defaulted: accepted with result o  iff  the
+    protocols are valid and each of the four governed fields passes its stage with the corresponding field of o;
+    a refusal is a validation error, except the KeyError of the unguarded `values['protocols']` in the
+    native_files validator (invalid protocols together with supplied native_files). *)
+Theorem C20_atomic_result_is_its_stages :
+  (forall i o, atomic_result i = Ok o <->
+     protocols_ok i = true
+     /\ wfn_stage (Some (eff_pw i)) (a_wfn i) = Ok (o_wfn o)
+     /\ return_result (a_driver i) (a_rr i) = Ok (o_rr o)
+     /\ stdout_protocol (Some (eff_ps i)) (a_stdout i) = Ok (o_stdout o)
+     /\ match a_native i with
+        | None => o_native o = []
+        | Some v => native_protocol (native_policy i) v = Ok (o_native o)
+        end)
+  /\ (forall i k, atomic_result i = Err k ->
+     k = Validation \/ (k = PyKeyError /\ protocols_ok i = false /\ a_native i <> None)).
+Proof. split; [exact atomic_result_ok_iff|exact atomic_result_err]. Qed.
+
+(** What the `wavefunction` of an accepted AtomicResult holds — through the protocol filter AND the field
+    validators, for every supplied dictionary and every protocol setting (eff_pw: supplied or default):
+    nothing under `none`; otherwise exactly the keys of the documented keep list present after the restricted
+    filter, each with the supplied payload (arrays: the supplied elements), no *_b key when restricted;
+    and no wavefunction appears when none was supplied. *)
+Theorem C20_atomic_wfn_kept_exactly :
+  (forall i o w, atomic_result i = Ok o -> a_wfn i = Some w ->
+     (eff_pw i = "none" /\ o_wfn o = None)
+     \/ exists r w', dget "restricted" w = Some r /\ r <> WNone /\ o_wfn o = Some w' /\
+          let w1 := after_restricted r w in
+          match assoc String.eqb (eff_pw i) doc_wfn_keep with
+          | Some KeepAll => forall k, is_some (dget k w') = is_some (dget k w1)
+          | Some (KeepList l) => forall k, is_some (dget k w') = keptb l w1 k && is_some (dget k w1)
+          | _ => False
+          end
+          /\ (forall k v', dget k w' = Some v' -> exists v, dget k w = Some v /\ same_payload v v')
+          /\ (truthy r = true -> forall k, dget k w' <> None -> ends_with "_b" k = false))
+  /\ (forall i o, atomic_result i = Ok o -> a_wfn i = None -> o_wfn o = None).
+Proof. split; [exact atomic_wfn_kept_exactly|exact atomic_wfn_absent]. Qed.
+
+(** stdout (kept iff the effective stdout protocol is True), return_result and native_files of an accepted AtomicResult *)
+Theorem C20_atomic_other_fields : forall i o, atomic_result i = Ok o ->
+  o_stdout o = (if eff_ps i then a_stdout i else None)
+  /\ return_result (a_driver i) (a_rr i) = Ok (o_rr o)
+  /\ match a_native i with
+     | None => o_native o = []
+     | Some v => native_protocol (native_policy i) v = Ok (o_native o)
+     end.
+Proof. exact atomic_other_fields. Qed.
+
+(** AtomicResultProperties as a whole: accepted iff every supplied array field is accepted, holding the field-wise
+    results; re-validating the accepted object changes nothing; a refusal is a validation error (PyAssertion is the
+    UnboundLocalError of a validator attached to a field whose name has none of the expected suffixes: unreachable
+    with the generated table, see C20_declared_shapes_enforced). *)
+Theorem C20_properties_whole_object :
+  (forall natom fs fs', props_fields natom fs = Ok fs' <-> Forall2 (fun f f' => prop_field natom f = Ok f') fs fs')
+  /\ (forall natom fs fs', props_fields natom fs = Ok fs' -> props_fields natom fs' = Ok fs')
+  /\ (forall natom fs k, props_fields natom fs = Err k -> k = Validation \/ k = PyAssertion).
+Proof. split; [exact props_fields_ok_iff|]. split; [exact props_fields_revalidate|exact props_fields_err]. Qed.
+
 (** Basis sets: the function count is the sum over the atoms of the sum over the center's shells of
     2L+1 (spherical) / (L+1)(L+2)/2 (cartesian) over all angular momenta of the shell (fused shells) —
     general contractions add nothing —, and a well-formed basis set is accepted iff the supplied nbf is
@@ -221,6 +357,16 @@ Theorem C20_basis_revalidation : forall b n,
   NoDup (keys (b_centers b)) -> structurally_valid b -> basis_validate b = Ok n ->
   basis_validate {| b_centers := b_centers b; b_atom_map := b_atom_map b; b_nbf := Some n |} = Ok n.
 Proof. exact basis_revalidate. Qed.
+
+(** ... and the hypothesis `structurally_valid` is necessary as well: BasisSet(...) is accepted with stored count n
+    iff it is structurally valid, n is the count implied by the shells and the supplied nbf is absent or n;
+    a refusal is a validation error or the KeyError that escapes from a malformed shell. *)
+Theorem C20_basis_accepted_iff :
+  (forall b n, NoDup (keys (b_centers b)) ->
+     (basis_validate b = Ok n <->
+      structurally_valid b /\ n = nbf_spec (b_atom_map b) (b_centers b) /\ (b_nbf b = None \/ b_nbf b = Some n)))
+  /\ (forall b k, basis_validate b = Err k -> k = Validation \/ k = PyKeyError).
+Proof. split; [exact basis_accepted_iff|exact basis_validate_err]. Qed.
 
 (** Re-validation of a whole AtomicResult is NOT always the identity: with native_files policy `input`
     and no native_files supplied the object holds {} (the validator does not run on the default), but
@@ -290,7 +436,14 @@ Print Assumptions C20_declared_shapes_enforced_refuted.
 Print Assumptions C20_wfn_validation_idempotent.
 Print Assumptions C20_wfn_stage_idempotent.
 Print Assumptions C20_atomic_revalidation.
+Print Assumptions C20_wfn_arrays_shaped_or_rejected.
+Print Assumptions C20_wfn_validation_keeps_payload.
+Print Assumptions C20_atomic_result_is_its_stages.
+Print Assumptions C20_atomic_wfn_kept_exactly.
+Print Assumptions C20_atomic_other_fields.
+Print Assumptions C20_properties_whole_object.
 Print Assumptions C20_nbf_spec.
 Print Assumptions C20_nbf_count_formulas.
 Print Assumptions C20_basis_revalidation.
+Print Assumptions C20_basis_accepted_iff.
 Print Assumptions C20_revalidation_identity_refuted.
